@@ -434,6 +434,34 @@ Example classifier_rejects :
 Proof. vm_compute. repeat split. Qed.
 Print Assumptions classifier_rejects.
 
+(** further accepted forms (second wave of refactorings): the recents test as a helper method with [continue] and two
+    returns of the same value; a pre-sized slice filled by a counter ([SFill], emitted by the translator only under its
+    side conditions) and sorted by a comparator that calls a named function; the handler table looked up in a second,
+    local map ([v, ok := m[k]] is two pure [SLocal]s) *)
+Example classifier_accepts_more :
+  option_map snd (classify {| s_file := ""; s_func := "*snapshot.signedRecently"; s_hash := ""; s_kvar := "seen"; s_vvar := "recent";
+     s_ranged := E "s.Recents" ["s"] [];
+     s_body := [SIf (E "recent != validator" ["recent"; "validator"] []) [SContinue] [];
+                SIf (E "number < limit" ["number"; "limit"] []) [SReturn [E "true" [] []]] [];
+                SIf (E "seen > number-limit" ["seen"; "number"; "limit"] []) [SReturn [E "true" [] []]] []];
+     s_after := [SReturn [E "false" [] []]]; s_text := "" |}) = Some ShSearch /\
+  option_map snd (classify {| s_file := ""; s_func := "*snapshot.validators"; s_hash := ""; s_kvar := "addr"; s_vvar := "_";
+     s_ranged := E "s.Validators" ["s"] []; s_body := [SFill "sorted" "next" (E "addr" ["addr"] [])];
+     s_after := [SSort "sorted" (CmpKey "<" "bytes.Compare" "[]byte" (KSliceAll KElem) (KSliceAll KElem))]; s_text := "" |}) =
+    Some (ShCollectSort "sorted" (CmpKey "<" "bytes.Compare" "[]byte" (KSliceAll KElem) (KSliceAll KElem))) /\
+  option_map snd (classify {| s_file := ""; s_func := "NewHookAdapter"; s_hash := ""; s_kvar := "name"; s_vvar := "event";
+     s_ranged := E "parsed.Events" ["parsed"] [];
+     s_body := [SLocal "handler" (E "byName[name]" ["byName"; "name"] []); SLocal "known" (E "present(byName[name])" ["byName"; "name"] []);
+                SIf (E "!known" ["known"] []) [SPanic (E "errors.New(""unknown topic"")" [] ["errors.New"])] [];
+                SStore "handlers" (E "event.ID" ["event"] []) (E "handler" ["handler"] [])];
+     s_after := []; s_text := "" |}) = Some ShStore /\
+  (* two returns of DIFFERENT values: which one is returned depends on the order *)
+  classify {| s_file := ""; s_func := ""; s_hash := ""; s_kvar := "k"; s_vvar := "v"; s_ranged := E "m" ["m"] [];
+     s_body := [SIf (E "v > 1" ["v"] []) [SReturn [E "true" [] []]] []; SIf (E "v > 0" ["v"] []) [SReturn [E "false" [] []]] []];
+     s_after := []; s_text := "" |} = None.
+Proof. vm_compute. repeat split. Qed.
+Print Assumptions classifier_accepts_more.
+
 (** comparators that are NOT a total order on the elements are rejected: a prefix of the key, one field, different keys
     on the two sides, a float order (NaN), a comparator the translator could not read *)
 Example comparator_rejects :
